@@ -83,7 +83,9 @@ def run(chk: Check, model):
                 and any(y == T.mk_index(S("self.model"), T.const("actor")) for y in T.walk(x))]
         n_layers = sums[0] if len(sums) == 1 else T.NONE
         ok = it[0] == "call" and it[1] == "range" and len(it[2]) == 1 and T.sub(n_layers, it[2][0]) == T.ONE and n_layers[0] == "call" and n_layers[1] in ("sum", "len")
-        chk.add("C20.layers", "Policy: all Dense layers but the last are hidden layers", ok and l.pre.get(nm) == S("norm_obs"), f"hidden loop runs over {T.show(it)[:120]} with num_layers = {T.show(n_layers)[:60]}, starting from {T.show(l.pre.get(nm, T.NONE))[:40]}", chk.loc(f_p))
+        # (the loop starts from the network input; the zero input used when no observation is given may be prepared before the loop)
+        pre_ = T.assume(l.pre.get(nm, T.NONE), T.eq(S("norm_obs"), T.NONE, numeric=False), False)
+        chk.add("C20.layers", "Policy: all Dense layers but the last are hidden layers", ok and pre_ == S("norm_obs"), f"hidden loop runs over {T.show(it)[:120]} with num_layers = {T.show(n_layers)[:60]}, starting from {T.show(l.pre.get(nm, T.NONE))[:40]}", chk.loc(f_p))
         elem = ("elem", it, l.uid)
         ok = body[0] == "call" and isinstance(body[1], tuple) and body[1][0] == "index" and body[1][2] == S("self.hidden_activation") and len(body[2]) == 1
         inner = None
